@@ -11,6 +11,7 @@ Every model is replayed on the real `make_vectorizable(func, "numpy")` output wi
 from __future__ import annotations
 
 import ast
+import datetime
 import importlib.util
 import inspect
 import itertools
@@ -83,7 +84,7 @@ def position_value(v, i):
     return None
 
 
-def check_function(ck, label, f, P, is_program=False):
+def check_function(ck, label, f, P, is_program=False, variant=None):
     """returns one of: 'equiv', 'loud-rewrite', 'loud-call', 'finding', 'not-encoded'"""
     from _gettsim.vectorization import TranslateToVectorizableError
     name = f.__name__
@@ -150,7 +151,7 @@ def check_function(ck, label, f, P, is_program=False):
             what = (f"{label}: array form differs from the scalar function at position {reproduced['position']}: "
                     f"args={args} scalar={reproduced['scalar']} array={reproduced['array']} [{shape}]")
             if reproduced["differs"]:
-                rp = {"kind": "program" if is_program else "internal", "name": name,
+                rp = {"kind": "program" if is_program else "internal", "name": name, "variant": variant,
                       "source": inspect.getsource(f) if is_program else None, "args": args}
                 feats = shape.split("+")
                 known_keys = {tuple(k["key"]) for k in ck.known}
@@ -330,23 +331,43 @@ def load_programs(depth):
     return mod, [n for n, _ in progs], d
 
 
+def variants_of(f, tier):
+    """[(label, P)]: parameter variants inside the function's validity period -- one per distinct structural
+    signature of the parameters it reads (quick: keys present, types, zero / non-zero) or per distinct value
+    (thorough)"""
+    info = getattr(f, "__info__", {}) or {}
+    lo = max(info["start_date"], datetime.date(1985, 1, 1)) if info.get("start_date") else datetime.date(1985, 1, 1)
+    vs = gt.param_variants(f, lo, info.get("end_date"), abstract=(tier == "quick"))
+    return [(lab, {a[: -len("_params")]: v for a, v in kw.items()}) for lab, kw in vs]
+
+
+RANK = {"finding": 5, "unknown": 4, "equiv": 3, "loud-call": 2, "loud-rewrite": 1, "not-encoded": 0}
+
+
 def _chunk_internal(ck, names):
     allf = gt.all_internal_functions()
     counts = {}
-    n_int = 0
+    n_int = n_var = 0
     for name in names:
         f = allf[name]
-        d = gt.function_date_for(f)
         try:
-            P, _ = gt.env(d)
+            vs = variants_of(f, ck.tier)
         except Exception as e:   # noqa: BLE001
-            ck.not_encoded[name] = f"no environment at {d}: {e}"[:100]
+            ck.not_encoded[name] = f"no parameter variants: {type(e).__name__}: {e}"[:100]
+            continue
+        if not vs:
+            ck.not_encoded[name] = "no date at which its parameter groups load"
             continue
         n_int += 1
-        out = check_function(ck, name, f, P)
-        counts[out] = counts.get(out, 0) + 1
-        ck.nontrivial.add(("internal", name, out))
-    ck.extra["internal_functions"] = {"checked": n_int, **counts}
+        worst = None
+        for lab, P in vs:
+            n_var += 1
+            out = check_function(ck, f"{name}@{lab}" if lab else name, f, P, variant=lab or None)
+            ck.nontrivial.add(("internal", name, out))
+            if worst is None or RANK.get(out, 0) > RANK.get(worst, 0):
+                worst = out
+        counts[worst] = counts.get(worst, 0) + 1
+    ck.extra["internal_functions"] = {"checked": n_int, "function_x_parameter_variant": n_var, **counts}
 
 
 def _chunk_programs(ck, arg):
@@ -418,7 +439,8 @@ def run(tier):
     ck.extra["generated_programs"] = {"grammar_depth": depth, **tot_p}
     ck.extra.setdefault("disagreements_checked", 0)
     ck.bounds = {"array_length": N, "grammar_depth": depth, "internal_functions": n_int, "generated_programs": n_prog,
-                 "per_function_date": "one date inside each function's validity period (parameters concrete per date)"}
+                 "parameter_variants": "per function, one date per distinct structural signature of the parameters it reads (keys, types, zero/non-zero) in quick, per distinct value in thorough; within the function's validity period from 1985",
+                 "function_x_parameter_variant": tot_i.get("function_x_parameter_variant", 0)}
     ck.stubs = ["numpy.where/logical_*/maximum/minimum element-wise; numpy.sum/any/all/max/min reduce over all elements (axis=None); "
                 "array division by zero does not raise; truth value of an array raises"]
     ck.assumptions = ["inputs on which the original scalar function raises impose no requirement",
@@ -433,7 +455,12 @@ def replay(path):
     d = json.load(open(path))["replay"]
     if d["kind"] == "internal":
         f = gt.all_internal_functions()[d["name"]]
-        P, _ = gt.env(gt.function_date_for(f))
+        if d.get("variant"):
+            date = datetime.date.fromisoformat(d["variant"])
+            P = {a[: -len("_params")]: gt._group_at(a[: -len("_params")], date)
+                 for a in inspect.signature(f).parameters if a.endswith("_params")}
+        else:
+            P, _ = gt.env(gt.function_date_for(f))
     else:
         tmp = tempfile.mkdtemp(prefix="gsv_c09r_")
         p = os.path.join(tmp, "gsv_user_progs.py")
